@@ -115,7 +115,9 @@ class World:
                 ops.append(("open", name, i))
         for s in sorted(self.slots):
             if len(s) == 1 and s not in self.stale:
-                for kind, suffix in (("copy", "c"), ("deep", "d"), ("pickle", "p")):
+                for kind, suffix in (("copy", "c"), ("deep", "d"), ("pickle", "p"), ("copy", "e")):
+                    if suffix == "e" and not alphabet.get("copy2", False):
+                        continue  # (a second shallow copy of the same handle)
                     if alphabet.get(kind, True) and s + suffix not in self.slots:
                         ops.append((kind, s, s + suffix))
 
